@@ -250,6 +250,16 @@ def build_property(prop_file, timeout=3000):
 # extraction + driver, harness
 # ---------------------------------------------------------------------------------------
 
+def vo_fresh(vfile):
+    """the .vo of a .v file of the development exists and is newer than its source"""
+    v = os.path.join(COQ, vfile)
+    vo = v + 'o'
+    try:
+        return os.path.getmtime(vo) >= os.path.getmtime(v)
+    except OSError:
+        return False
+
+
 def build_model_driver():
     """Extract the model (only model files are required by Extract.v) and build the driver."""
     os.makedirs(BUILD, exist_ok=True)
